@@ -195,7 +195,12 @@ impl SymbolMap {
         loc: FileRange,
     ) -> Option<impl Iterator<Item = (FileRange, SymbolId)> + '_> {
         let map = self.pos_to_symbol_map.get(&loc.file)?;
-        Some(map.iter(loc.range).map(move |(range, id)| {
+        // the interval map panics on an empty query interval; an empty range contains no symbol
+        let overlaps = (!loc.range.is_empty())
+            .then(|| map.iter(loc.range))
+            .into_iter()
+            .flatten();
+        Some(overlaps.map(move |(range, id)| {
             (
                 FileRange::new(loc.file, TextRange::new(range.start, range.end)),
                 *id,
